@@ -167,7 +167,15 @@ def install():
                 f(self, head.time)
         for f in bus.table['before_step']:
             f(self, head)
-        o_step(self)
+        try:
+            o_step(self)
+        except BaseException:
+            # an exception escaping from the event's action: the event is consumed all the same and the
+            # monitors see the boundary (the caller may catch the exception and carry on)
+            bus.step_raised = getattr(bus, 'step_raised', 0) + 1
+            for f in bus.table['after_event']:
+                f(self, head)
+            raise
         for f in bus.table['after_event']:
             f(self, head)
     Environment.step = env_step
